@@ -24,8 +24,8 @@ import (
 const (
 	// SlotNs is the width of one scheduling slot.  Task i only ever wakes at instants that are
 	// congruent to i modulo SlotNs, so no two tasks wake at the same fake instant.
-	SlotNs   = 64
-	MaxTasks = 64
+	SlotNs   = 512 // divides one second, so whole-second library timers keep their owner's residue
+	MaxTasks = 512
 )
 
 // Sched describes how a task chooses its yield delays.
